@@ -3,6 +3,7 @@ package main
 import (
 	"fmt"
 	"go/token"
+	"os"
 	"strings"
 
 	"golang.org/x/tools/go/ssa"
@@ -122,4 +123,49 @@ func onlyLoopEndSkips(p *Prog, r *Report, rule, site string, fn *ssa.Function, p
 		}
 	}
 	r.Check(len(extra) == 0, rule, site, p.Pos(fn.Pos()), "no element is skipped", fmt.Sprintf("%s (decisions: %v)", why, extra))
+}
+
+// extractorLoopDecisions: the decisions that end the handling of the current file for the current
+// extractor (or for all remaining extractors) without dispatching it, in the callback's loop over
+// the configured extractors. Audited: the extractor does not require the file; the size limit is
+// exceeded / the size cannot be determined (those end the file for every extractor, by design).
+var extractorLoopSanctioned = []string{
+	"!extractor/filesystem.Extractor.FileRequired(param0.extractors[(φ:int+1:int)],param0.fileAPI)",
+	"builtin.len(param0.extractors) <= (φ:int+1:int)",
+	"extractor/filesystem.fileSize(param0.fileAPI)#1 != nil:error",
+	"param0.maxFileSize < extractor/filesystem.fileSize(param0.fileAPI)#0",
+}
+
+func extractorLoopRule(p *Prog, r *Report, e *engine, rule string) {
+	defer func(d int, a bool) { renderDepth, renderAllocs = d, a }(renderDepth, renderAllocs)
+	renderDepth, renderAllocs = 10, true
+	isDisp := func(in ssa.Instruction) bool { return in == ssa.Instruction(e.dispatchCall) }
+	got := loopSkips(e.handleFile, isDisp)
+	if os.Getenv("SCALINT_LEARN") != "" {
+		for _, g := range got {
+			fmt.Fprintf(os.Stderr, "LEARN-EXLOOP\t%q,\n", g)
+		}
+		return
+	}
+	want := map[string]int{}
+	for _, w := range extractorLoopSanctioned {
+		want[w]++
+	}
+	have := map[string]int{}
+	for _, g := range got {
+		have[g]++
+	}
+	key := fnKey(e.handleFile)
+	for g, n := range have {
+		if n > want[g] {
+			r.Fail(rule, key+":extractor-loop:new:"+short(g, 120), p.Pos(e.handleFile.Pos()), "a decision that keeps the current file from an extractor (or from all remaining extractors) is not among the audited ones: "+g+" — e.g. leaving the loop after one extractor failed to open the file means the other extractors that require it never see it and are reported as succeeded")
+		} else {
+			r.OK(rule, key+":extractor-loop:"+short(g, 120), p.Pos(e.handleFile.Pos()), "audited decision")
+		}
+	}
+	for w, n := range want {
+		if have[w] < n {
+			r.Fail(rule, key+":extractor-loop:missing:"+short(w, 120), p.Pos(e.handleFile.Pos()), "the audited decision '"+w+"' is gone or was rewritten")
+		}
+	}
 }
